@@ -1,6 +1,235 @@
 /-
-  Property C17 — property theorems only (helper lemmas live next to the model).
-  Stub: nothing claimed yet.
+  Property C17 — page allocators / object pool: resources conserved, never shared, never lost.
+  Property theorems only; the model is Babylon/Pages/Model.lean, helper lemmas are in Babylon/Pages/*.lean.
+
+  The transition system is `Babylon.Pages.Step c`: any number `c.nthreads` of threads, any queue capacity
+  `c.cap`, any batch size / counting layer / pool mode; one step = one atomic operation, fence, (reverse)
+  callback event or silent thread-local move of the real `CachedPageAllocator`, `BatchPageAllocator`,
+  `CountingPageAllocator`, `PageHeap` (allocate, deallocate, destructors) or `ObjectPool` (pop, try_pop, push in
+  strict and auto-create mode), or a call / return event allowed by the client contract (`callOp`: a caller
+  gives back only tokens it holds; the upstream hands out only tokens that are not live).  `Reach c s` = `s` is
+  reachable from the initial state by any interleaving.
+
+  ASSUMED bounded-queue specification (C01/C02's theorems, not re-proved here; stated in the header of
+  Model.lean): it enters the model as guards of `acquire` / `takeVal` / `publish` (C01 `bq_inv`,
+  `bq_exclusive`: exclusive access to a slot between "version observed" and "version advanced"; `bq_value`:
+  the slot stores what the same ticket pushed; `bq_ver16_faithful`: truncated versions compare like the
+  untruncated ones) and of `dlWait` (C02 `bq_sleep_sound`: a sleeper is woken once its version is published).
+  Every theorem below is about the executions these guards permit; the lock-step replay
+  (lean/Drivers/C17.lean) reports a divergence whenever the real code takes a step the guards forbid.
 -/
+import Babylon.Pages.Pool
+import Babylon.Pages.Sched
+
 namespace Babylon.Properties.C17
+open Babylon.Pages Babylon.Core Babylon.Gen.Pages
+
+/-! ## Generated obligations: the source is the one the model was written against -/
+
+/-- the compensating `deal_n_continuously`: version check, read of the OPPOSITE ticket counter, compensating
+`try_pop_n` / `try_push_n`, yield; acquire fence, callback, release fence, version publish -/
+theorem gen_skel_comp_deal_n : skel_comp_deal_n =
+    [.call "version", .load "_next_pop_index" .rlx, .load "_next_push_index" .rlx, .call "try_pop_n",
+     .call "try_push_n", .call "S::yield", .fence .acq, .call "callback", .fence .rel, .call "set_version"] := by decide
+
+theorem gen_skel_tickets :
+    skel_comp_push_n = [.rmw "fetch_add" "_next_push_index" .rlx, .call "deal_n_continuously",
+      .call "deal_n_continuously", .call "deal_n_continuously"] ∧
+    skel_comp_pop_n = [.rmw "fetch_add" "_next_pop_index" .rlx, .call "deal_n_continuously",
+      .call "deal_n_continuously", .call "deal_n_continuously"] ∧
+    skel_push1 = [.rmw "fetch_add" "_next_push_index" .rlx, .load "_next_push_index" .rlx,
+      .store "_next_push_index" .rlx, .call "deal"] ∧
+    skel_pop1 = [.rmw "fetch_add" "_next_pop_index" .rlx, .load "_next_pop_index" .rlx,
+      .store "_next_pop_index" .rlx, .call "deal"] := by decide
+
+theorem gen_skel_try :
+    skel_try_deal_n = [.call "version", .cas "next_index" true .rlx .rlx, .store "next_index" .rlx, .fence .acq,
+      .call "callback", .fence .rel, .call "set_version", .fence .sc, .call "wakeup_waiters"] ∧
+    skel_try_push_n = [.load "_next_push_index" .rlx, .call "try_deal_n_continuously",
+      .call "try_deal_n_continuously", .call "try_deal_n_continuously"] ∧
+    skel_try_pop_n = [.load "_next_pop_index" .rlx, .call "try_deal_n_continuously",
+      .call "try_deal_n_continuously", .call "try_deal_n_continuously"] ∧
+    skel_try_deal = [.load "next_index" .rlx, .call "version", .load "next_index" .rlx,
+      .cas "next_index" false .rlx .rlx, .store "next_index" .rlx, .call "callback",
+      .call "set_version_and_wakeup_waiters", .call "set_version"] ∧
+    skel_deal = [.call "wait_until_reach_expected_version", .call "callback",
+      .call "set_version_and_wakeup_waiters", .call "set_version"] ∧
+    skel_size = [.load "_next_pop_index" .rlx, .load "_next_push_index" .rlx] ∧
+    skel_sf_set_version_and_wakeup = [.xchg "_futex.value()" .rel, .call "wake_all"] := by decide
+
+/-- the compensating decision is `need_index <= index + num` on a relaxed read of the opposite counter, the
+compensation is `try_pop_n<true,false>(rc, 1)` / `try_push_n<true,false>(rc, 1)`, the destructor pops with
+`try_pop_n<false,false>`, versions are `2·round (+1)` truncated to 16 bits -/
+theorem gen_constants :
+    compDecisionOp = "<=" ∧ compTryPopFlags = [true, false] ∧ compTryPopNum = 1 ∧
+    compTryPushFlags = [true, false] ∧ compTryPushNum = 1 ∧ dtorTryPopFlags = [false, false] ∧
+    pushVersionFactor = 2 ∧ popVersionOffset = 1 ∧ verMod = 2 ^ 16 ∧ versionBits = 16 ∧ futexWordBits = 32 ∧
+    ringSplitChecked = 1 ∧ defaultCapacity = 1 ∧ ceil0 = 1 ∧ ceil3 = 4 := by decide
+
+/-- memory orders the model's labels carry: the batch paths are relaxed accesses bracketed by an acquire and
+a release fence, the single-element paths acquire the version and publish it with release -/
+theorem gen_orders :
+    ordCompVer = .rlx ∧ ordCompSetVer = .rlx ∧ ordOppPush = .rlx ∧ ordOppPop = .rlx ∧
+    ordTryNVer = .rlx ∧ ordTryNSetVer = .rlx ∧ ordTryNCas = .rlx ∧ ordTryNCasFail = .rlx ∧ ordTryNStoreIdx = .rlx ∧
+    ordTicketPushN = .rlx ∧ ordTicketPopN = .rlx ∧ ordTicket1Push = .rlx ∧ ordTicket1Pop = .rlx ∧
+    ordDealWait = .acq ∧ ordDealSetVer = .rel ∧ ordDealXchg = .rel ∧
+    ordTry1Ver = .acq ∧ ordTry1SetVer = .rel ∧ ordTry1Cas = .rlx ∧ ordSizePop = .rlx ∧ ordSizePush = .rlx := by decide
+
+/-- the allocators: call structure, counting before (CountingPageAllocator) / after (PageHeap) forwarding,
+batch allocator shape -/
+theorem gen_skel_allocators :
+    skel_cached_allocate = [.call "pop_n", .call "::std::copy", .call "_upstream->allocate", .call "_upstream->allocate"] ∧
+    skel_cached_deallocate = [.call "push_n", .call "::std::copy_n", .call "_upstream->deallocate",
+      .call "_upstream->deallocate"] ∧
+    skel_cached_dtor = [.call "try_pop_n", .call "_upstream->deallocate"] ∧
+    skel_batch_allocate1 = [.call "_cache.local", .call "_upstream->allocate"] ∧
+    skel_batch_allocate_n = [.call "allocate"] ∧ skel_batch_deallocate = [.call "_upstream->deallocate"] ∧
+    skel_batch_dtor = [.call "_cache.for_each", .call "_upstream->deallocate"] ∧
+    countingCountsBefore = 1 ∧ heapCountsAfter = 1 ∧ countDeltaChecked = 1 ∧ batchShapeChecked = 1 := by decide
+
+/-- the pool: strict mode `pop<true,true,false>` / `push<true,false,true>`, `try_pop<true,false>`, auto mode
+`pop_n` / `push_n` of one element with creator / reset as reverse callbacks, recycler first, size gate, queue
+of twice the capacity -/
+theorem gen_skel_pool :
+    skel_pool_pop = [.call "_free_objects.template pop_n", .call "_object_creator", .call "_free_objects.template pop"] ∧
+    skel_pool_try_pop = [.call "_free_objects.template try_pop"] ∧
+    skel_pool_push = [.call "_object_recycler", .call "_free_objects.size", .call "_free_objects.template push_n",
+      .call "_free_objects.template push"] ∧
+    skel_pool_push_deleter = [.call "push"] ∧ skel_pool_deleter_call = [.call "_pool->push"] ∧
+    poolPopFlags = [true, true, false] ∧ poolTryPopFlags = [true, false] ∧ poolPushFlags = [true, false, true] ∧
+    poolQueueFactor = 2 := by decide
+
+/-! ## Single owner, conservation -/
+
+/-- **pages_single_owner.**  In every reachable state the list of all token occurrences, place by place
+(cache slots, callers, thread buffers, in-flight lists of every thread), has no duplicates: a token is in at
+most one place, and at most once in it; a token in no place is upstream.  Invariant: every step is a move
+(`Step.delta`). -/
+theorem pages_single_owner (c : Cfg) (s : State) (h : Reach c s) : (toks c s).Nodup := reach_nodup h
+
+/-- every transition moves tokens: it permutes the live tokens, or brings in one token from upstream that
+was not live, or sends exactly one live token back upstream -/
+theorem pages_each_step_is_a_move (c : Cfg) (s s' : State) (h : Step c s s') : Delta c s s' := Step.delta h
+
+/-- what single ownership means for a token handed out by allocate / pop (it is in `held`): it is not cached,
+not in a thread buffer, not in flight in any thread, and it is not held twice (by two callers) -/
+theorem pages_never_shared (c : Cfg) (s : State) (h : Reach c s) (p : Tok) (hp : p ∈ s.held) :
+    p ∉ cacheToks s ∧ p ∉ s.bufs.flatten ∧ p ∉ thToks c s ∧ s.held.count p = 1 := by
+  have hn := reach_nodup h
+  unfold toks at hn
+  have h1 := List.nodup_append.mp hn
+  have h2 := List.nodup_append.mp h1.1
+  have h3 := List.nodup_append.mp h2.1
+  refine ⟨fun hc => ?_, fun hb => ?_, fun ht => ?_, ?_⟩
+  · exact h3.2.2 p hc p hp rfl
+  · exact h2.2.2 p (List.mem_append.mpr (Or.inr hp)) p hb rfl
+  · exact h1.2.2 p (List.mem_append.mpr (Or.inl (List.mem_append.mpr (Or.inr hp)))) p ht rfl
+  · rw [h3.2.1.count]; simp [hp]
+
+/-- a token that goes back upstream (`upstream_free`, `destroy`) is afterwards in no place at all: nothing
+that was returned upstream is still cached, held or in flight -/
+theorem returned_upstream_is_gone (c : Cfg) (s s' : State) (h : Reach c s) (hst : Step c s s') (p : Tok)
+    (hfree : (toks c s).Perm (p :: toks c s')) : p ∉ toks c s' := by
+  have hn := hfree.nodup_iff.mp (reach_nodup h)
+  exact (List.nodup_cons.mp hn).1
+
+/-- **pages_conserved, at every moment**: obtained − returned = number of live tokens (cached + held by callers
++ thread buffers + in flight). -/
+theorem pages_conserved_always (c : Cfg) (s : State) (h : Reach c s) :
+    s.obtained = s.returned + ((cacheToks s).length + s.held.length + s.bufs.flatten.length + (thToks c s).length) := by
+  have := reach_conserve h
+  simp only [toks, List.length_append] at this
+  omega
+
+/-- **pages_conserved.**  At any quiescent point (no thread inside a call) nothing is in flight:
+#obtained − #returned = #callers + #cached + #threadBuffers. -/
+theorem pages_conserved (c : Cfg) (s : State) (h : Reach c s) (hq : Quiescent c s) :
+    s.obtained = s.returned + (s.held.length + (cacheToks s).length + s.bufs.flatten.length) := by
+  have h1 := pages_conserved_always c s h
+  rw [thToks_quiescent (reach_idleEmpty h) hq] at h1
+  simp only [List.length_nil] at h1
+  omega
+
+/-! ## Object pool -/
+
+/-- **pool_strict_bound (1).**  A strict pool never creates or destroys an object by itself: the objects that
+exist are exactly the injected ones, and at every moment they are with callers, cached, or in flight inside a
+pop / push — so the number of objects outstanding with callers never exceeds the number injected. -/
+theorem pool_strict_bound (c : Cfg) (s : State) (hm : c.mode = Mode.poolStrict) (h : Reach c s) :
+    s.held.length + (cacheToks s).length + (thToks c s).length = s.injected ∧ s.held.length ≤ s.injected := by
+  have hs := reach_strict hm h
+  have hc := pages_conserved_always c s h
+  rw [hs.obt, hs.ret] at hc
+  have hb : s.bufs.flatten.length = 0 := by rw [hs.bufs]; rfl
+  omega
+
+/-- **pool_strict_bound (2): a blocked pop is woken by the matching push.**  When the push of ticket `i`
+publishes its slot (and wakes the sleepers), the pop of the same ticket that was waiting is enabled, and after
+its two silent steps it holds exactly the object that was pushed. -/
+theorem pool_blocked_pop_resumes (c : Cfg) (s s' : State) (t u : Tid) (tok : Tok) (spur : Bool) (l : Option Act)
+    (h : Reach c s) (hut : u ≠ t)
+    (hu : (s.th u).pc = .dlPub) (hud : (s.th u).dir = .push)
+    (ht : (s.th t).pc = .dlWait) (htd : (s.th t).dir = .pop) (hi : (s.th t).idx = (s.th u).idx)
+    (hstep : stepThread c s u tok spur = some (s', l)) :
+    ∃ o s1 s2, (s.th u).pages = [o] ∧
+      stepThread c s' t 0 false = some (s1, none) ∧ (s1.th t).pc = .dlCb ∧
+      stepThread c s1 t 0 false = some (s2, none) ∧ (s2.th t).pc = .dlPub ∧ (s2.th t).pages = (s.th t).pages ++ [o] :=
+  pop_enabled_by_push (reach_slotsOK h) hut hu hud ht htd hi hstep
+
+/-- **pool_auto_recycle_once.**  For every object `o`: the recycler has run on `o` as often as `push(o)` has
+been called, minus the pushes that are between their call and the recycler (at most one, the object is in
+flight in exactly one thread); at quiescence the two numbers are equal — once per returned object. -/
+theorem pool_auto_recycle_once (c : Cfg) (s : State) (h : Reach c s) (o : Tok) :
+    s.recLog.count o ≤ s.pushLog.count o ∧ s.pushLog.count o ≤ s.recLog.count o + 1 ∧
+    (Quiescent c s → s.recLog.count o = s.pushLog.count o) := by
+  have hr := reach_recInv h o
+  have hn := reach_nodup h
+  have hsub : (pend c s).count o ≤ (thToks c s).count o := pend_le_thToks c s o
+  have hle : (thToks c s).count o ≤ 1 := by
+    have : (toks c s).count o ≤ 1 := List.nodup_iff_count.mp hn o
+    unfold toks at this
+    simp only [List.count_append] at this
+    omega
+  refine ⟨by omega, by omega, fun hq => ?_⟩
+  rw [pend_quiescent hq] at hr
+  simp at hr
+  omega
+
+/-- overflow in auto mode: the gate `capacity <= size()` sends the pushed object back upstream (it is
+destroyed): the step is a `free`, so the object is afterwards in no place — not leaked into a slot, not cached
+twice, not handed to anybody. -/
+theorem pool_overflow_destroyed (c : Cfg) (s s' : State) (t : Tid) (tok : Tok) (spur : Bool) (l : Option Act)
+    (h : Reach c s) (ht : t < c.nthreads) (hpc : (s.th t).pc = .pDestroy)
+    (hstep : stepThread c s t tok spur = some (s', l)) :
+    ∃ o, (s.th t).pages = [o] ∧ l = some (.ev ["up_free", toString o]) ∧ s'.returned = s.returned + 1 ∧
+      o ∉ toks c s' ∧ (s'.th t).pc = .retWait := by
+  obtain ⟨o, hpg, hl, hr, hpc', hperm⟩ := pDestroy_step ht hpc hstep
+  exact ⟨o, hpg, hl, hr, returned_upstream_is_gone c s s' h (Step.thread t tok spur l ht hstep) o hperm, hpc'⟩
+
+/-! ## Non-vacuity -/
+
+/-- capacity 2, three threads: a page is cached (and its slot already acquired by a popper), another is with
+a caller, and thread 1 is in the middle of a compensating allocate: it has just obtained page 3 from upstream
+for a compensating push -/
+def demoCfg : Cfg := { cap := 2, nthreads := 3 }
+
+def demoSched : List Move :=
+  [.call 0 (.alloc 2), .act 0, .act 0, .act 0, .act 0, .act 0, .act 0, .act 0, .act 0 1, .act 0, .act 0,   -- first page compensated
+   .act 0, .act 0, .act 0, .act 0, .act 0, .act 0, .act 0, .act 0 2, .act 0, .act 0,                     -- second page
+   .act 0, .act 0, .act 0, .act 0, .act 0, .act 0, .act 0, .ret 0,                                      -- callback, publish, return [1, 2]
+   .call 0 (.dealloc [2]), .act 0, .act 0, .act 0, .act 0, .act 0, .ret 0,                              -- page 2 cached
+   .call 1 (.alloc 2), .act 1, .act 1, .act 1, .act 1, .act 1, .act 1, .act 1, .act 1, .act 1 3]
+
+example : ∃ s, Reach demoCfg s ∧ s.held = [1] ∧ cacheToks s = [2] ∧ (s.th 1).pc = .cRel ∧ (s.th 1).carry = [3] ∧
+    s.obtained = 3 ∧ s.returned = 0 := by
+  cases hs : run demoCfg (State.init demoCfg) demoSched with
+  | none => exact absurd hs (by decide)
+  | some s =>
+    have hr : Reach demoCfg s := run_reach demoSched _ _ (Reachable.base rfl) hs
+    have hrest : (run demoCfg (State.init demoCfg) demoSched).map
+        (fun s => decide (s.held = [1] ∧ cacheToks s = [2] ∧ (s.th 1).pc = .cRel ∧ (s.th 1).carry = [3] ∧
+          s.obtained = 3 ∧ s.returned = 0)) = some true := by decide
+    rw [hs] at hrest
+    exact ⟨s, hr, by simpa using hrest⟩
+
 end Babylon.Properties.C17
